@@ -284,7 +284,11 @@ def run(ctx):
         for mode in ("exit", "kill"):
             for _ in range(ctx.n(3, 10)):
                 first = rng.randrange(1, 4)
-                more = [rng.randrange(1, 3) for _i in range(rng.randrange(1, 4))]
+                more = []
+                for _i in range(rng.randrange(1, 4)):
+                    sz = rng.randrange(1, 3)
+                    if first + sum(more) + sz <= 8:          # the source trajectory has 8 tagged frames
+                        more.append(sz)
                 path = os.path.join(ctx.scratch, "a." + ext)
                 clean(path)
                 f = md.open(path, "w")
